@@ -317,3 +317,111 @@ def run_scripted(spec):
     classes.append("chunks:" + chunks)
     nontrivial = (r["kind"] == "failure" or v != (1, 2) or sock.recv_chunks > 2)
     return {"buckets": buckets, "classes": classes, "nontrivial": nontrivial, "refused": False}
+
+
+# ----------------------------------------------------------------------------- scripted sequence
+def run_scripted_seq(spec):
+    """Several calls on ONE client object (spec['calls'] = [{op, args, resp, chunks}], no stream
+    faults).  Every call is judged exactly as a single scripted call is; in addition every value
+    the client handed back earlier must still read the same after the later calls (a result is
+    the caller's: a later call must not rewrite it), and a later result must not carry anything
+    left over from an earlier answer (that is the ordinary per-call comparison)."""
+    import copy
+    api = spec["api"]
+    v = tuple(spec["v"])
+    calls = spec["calls"]
+    buckets = []
+    cur = {"i": 0}
+    state = {"harness": None, "wires": {}}
+
+    def responder(req):
+        try:
+            c = calls[cur["i"]]
+            op = OPS[c["op"]]
+            try:
+                rop = W.parse_request(req)["operation"]
+            except T.TTLVError:
+                rop = op.code
+            one = {"resp": c["resp"], "fault": None}
+            data = response_bytes(one, op, v, rop)
+            r = c["resp"]
+            if r["kind"] == "success":
+                state["wires"][cur["i"]] = {"kind": "success", "payload": r["payload"]}
+            else:
+                state["wires"][cur["i"]] = {"kind": "failure", "reason": r["reason"],
+                                            "message": r.get("message")}
+            return data
+        except BaseException as e:
+            state["harness"] = (e, traceback.format_exc())
+            raise
+
+    client, sock = W.make_client(v, responder, spec.get("chunks"))
+    kept = []       # (index, op, returned object, observation at return time)
+    classes = ["mode:scripted-seq", "v:" + vkey(v), "seq:len=%d" % len(calls)]
+    kinds = []
+    refused = 0
+    try:
+        for i, c in enumerate(calls):
+            cur["i"] = i
+            op = OPS[c["op"]]
+            label = "%s.%s (call %d of %d on one client)" % (api, op.name, i + 1, len(calls))
+            nreq = len(sock.requests)
+            try:
+                outcome = ("ret", op.call(api, client, c["args"], v))
+            except Exception as e:      # noqa
+                outcome = ("exc", e)
+            if state["harness"] is not None:
+                raise core.HarnessError("responder failed:\n" + state["harness"][1])
+            if len(sock.requests) == nreq:
+                e = outcome[1]
+                if outcome[0] == "exc" and is_refusal(e):
+                    refused += 1
+                    kinds.append("refused")
+                    continue
+                if outcome[0] == "exc":
+                    buckets.append((core.exc_bucket(PID, "no-request|" + op.name, e),
+                                    "%s raised %s: %s before sending anything\n%s"
+                                    % (label, type(e).__name__, e, _tb(e))))
+                else:
+                    buckets.append(("C19|no-request|returned|%s.%s" % (api, op.name),
+                                    "%s returned %r without sending a request"
+                                    % (label, plain(outcome[1]))))
+                kinds.append("nothing-sent")
+                continue
+            check_request(sock.requests[-1], op, api, c["args"], v, None, buckets, label)
+            judge(op, api, v, outcome, state["wires"][i], buckets, label)
+            kinds.append(c["resp"]["kind"])
+            classes.append("op:%s.%s" % (api, op.name))
+            if outcome[0] == "ret":
+                try:
+                    snap = copy.deepcopy(_observation(op, api, outcome[1], v))
+                except Exception:
+                    continue
+                kept.append((i, op, outcome[1], snap))
+        for i, op, obj, snap in kept:
+            try:
+                now = _observation(op, api, obj, v)
+            except Exception as e:
+                now = {"unreadable": "%s: %s" % (type(e).__name__, e)}
+            if now != snap:
+                buckets.append(("C19|earlier-result-rewritten|%s.%s" % (api, op.name),
+                                "the value returned by call %d (%s.%s) read %r when it was "
+                                "returned and reads %r after the later calls of the sequence"
+                                % (i + 1, api, op.name, snap, now)))
+    finally:
+        W.release_client(client)
+    classes.append("seq:kinds=" + ">".join(kinds))
+    nontrivial = len([k for k in kinds if k in ("success", "failure")]) >= 2
+    return {"buckets": buckets, "classes": classes, "nontrivial": nontrivial,
+            "refused": refused == len(calls)}
+
+
+def _observation(op, api, x, v):
+    """What a caller can read from a returned value: the operation's own extraction plus, for
+    result objects / dictionaries, the status triple."""
+    out = {"value": op.observe(api, x, v)}
+    if api == "proxy" and not getattr(op, "proxy_returns_payload", False):
+        out["status"] = failure_details(x)
+    if isinstance(x, dict):
+        out["keys"] = sorted(str(k) for k in x)
+    return out
